@@ -25,6 +25,9 @@ with value_local (v : value) {struct v} : bool :=
   match v with
   | VLeaf l => leaf_local l
   | VList l | VTuple l => (fix go (l : list value) : bool := match l with [] => true | a :: r => value_local a && go r end) l
+  | VDict _ vals => (fix go (l : list value) : bool := match l with [] => true | a :: r => value_local a && go r end) vals
+  | VPkt _ sl | VNew _ sl =>
+      (fix go (l : list (fname * value)) : bool := match l with [] => true | (_, a) :: r => value_local a && go r end) sl
   | _ => true
   end
 with leaf_local (l : leaf) {struct l} : bool :=
@@ -102,6 +105,9 @@ with value_closed (v : value) {struct v} : bool :=
   match v with
   | VLeaf l => leaf_closed_rec l
   | VList l | VTuple l => (fix go (l : list value) : bool := match l with [] => true | a :: r => value_closed a && go r end) l
+  | VDict _ vals => (fix go (l : list value) : bool := match l with [] => true | a :: r => value_closed a && go r end) vals
+  | VPkt _ sl | VNew _ sl =>
+      (fix go (l : list (fname * value)) : bool := match l with [] => true | (_, a) :: r => value_closed a && go r end) sl
   | _ => true
   end
 with leaf_closed_rec (l : leaf) {struct l} : bool :=
